@@ -16,7 +16,12 @@ RECURSIVE TrimRight(_, _)
 TrimRight(s, ch) == IF s # <<>> /\ s[Len(s)] = ch THEN TrimRight(SubSeq(s, 1, Len(s) - 1), ch) ELSE s
 RECURSIVE TrimLeft(_, _)
 TrimLeft(s, ch) == IF s # <<>> /\ s[1] = ch THEN TrimLeft(SubSeq(s, 2, Len(s)), ch) ELSE s
-Trim(s) == TrimLeft(TrimRight(s, "s"), "s")
+\* str::trim / trim_start remove every whitespace character: of the alphabet, the space and a lone CR
+RECURSIVE TrimLeftWS(_)
+TrimLeftWS(s) == IF s # <<>> /\ s[1] \in {"s", "r"} THEN TrimLeftWS(SubSeq(s, 2, Len(s))) ELSE s
+RECURSIVE TrimRightWS(_)
+TrimRightWS(s) == IF s # <<>> /\ s[Len(s)] \in {"s", "r"} THEN TrimRightWS(SubSeq(s, 1, Len(s) - 1)) ELSE s
+Trim(s) == TrimLeftWS(TrimRightWS(s))
 \* split at LF: <<line1, ..., lineK>> where the last element is what follows the last LF (maybe <<>>)
 RECURSIVE Split(_, _, _)
 Split(s, i, cur) == IF i > Len(s) THEN <<cur>>
@@ -33,7 +38,7 @@ Line(st, raw) ==
     IF line # <<>> /\ line[1] = "E" THEN
         LET v == Trim(SubSeq(line, 2, Len(line))) IN [st EXCEPT !.ev = IF v = <<>> THEN None ELSE v]
     ELSE IF line # <<>> /\ line[1] = "D" THEN
-        [st EXCEPT !.data = Append(@, TrimLeft(SubSeq(line, 2, Len(line)), "s"))]
+        [st EXCEPT !.data = Append(@, TrimLeftWS(SubSeq(line, 2, Len(line))))]
     ELSE IF line = <<>> THEN
         IF st.data # <<>> THEN [st EXCEPT !.out = Append(@, [ev |-> st.ev, data |-> Join(st.data)]), !.data = <<>>, !.ev = None]
         ELSE st
